@@ -23,6 +23,7 @@ def build_arg(ffi, d, cells, keep):
     if k == "list": return [build_arg(ffi, x, cells, keep) for x in d[1]]
     if k == "tuple": return tuple(build_arg(ffi, x, cells, keep) for x in d[1])
     if k == "intobj": return IntObj(int(d[1]))
+    if k == "dict": return dict(("f%d" % (i + 1), build_arg(ffi, x, cells, keep)) for i, x in d[1])
     if k == "cast": return ffi.cast(d[1], build_arg(ffi, d[2], cells, keep))
     if k == "cell":
         c = cells[d[1]]
